@@ -866,6 +866,8 @@ def check_convergence(mbi, case, eng, last, probes):
         # 5e-3 per scalar measurement is a normalised residual change of 0.1 sigma (needed when the optimum IS the uniform start)
         m_rows = sum(int(np.size(y_)) for _, y_, _, _ in meas)
         allowed = 1e-2 * max(Lu - best, 0.0) + 1e-9 * Lu + 5e-3 * m_rows + 1e-12
+        blown = max(theta_mag(mw), theta_mag(mc)) >= 1e9 or any(
+            bool(np.any(np.isnan(np.asarray(m_.potentials[cl].values, dtype=float)) | np.isposinf(np.asarray(m_.potentials[cl].values, dtype=float)))) for m_ in (mw, mc) for cl in m_.cliques)
         if max(theta_mag(mw), theta_mag(mc)) >= 1e9 and Lw - Lc < -allowed:
             probes['convergence-skipped(theta>=1e9, F8)'] = probes.get('convergence-skipped(theta>=1e9, F8)', 0) + 1
             return None
@@ -884,7 +886,8 @@ def check_convergence(mbi, case, eng, last, probes):
     if closed >= 0.05 * (behind1 - target):
         probes['convergence-slow-but-progressing'] = probes.get('convergence-slow-but-progressing', 0) + 1
         return None
-    return Violation('c13-warm-converges', 'c13-warm-converges:' + solver + (':warm-below-cold' if below else '') + sat,
+    # parameters beyond 1e9 (or NaN / +inf) at the last stage: the unbounded step growth of known finding F8, seen through this clause
+    return Violation('c13-warm-converges', 'c13-warm-converges:' + solver + (':warm-below-cold' if below else '') + sat + (':theta>=1e9' if blown else ''),
                      'warm-started %s %s: losses (iteration multiplier, L_warm, L_cold) = %s, L_uniform=%.6g; the run that is behind closed %.3g of its distance %.3g with 16x the iterations; parameter spread of the warm starting point %.4g' % (
                          solver, 'ends BELOW what a cold start reaches and the cold start makes no progress towards it (the two do not optimise over the same set)' if below else 'stays above the cold-start result and makes no progress towards it',
                          [(m, float('%.6g' % a), float('%.6g' % b)) for m, a, b, _ in hist], Lu, closed, behind1 - target, spread))
